@@ -137,6 +137,28 @@ func (in *interp) newDraw(name, kind string, w uint8, k types.BasicKind) value {
 	return Sym{t, k}
 }
 
+// fixedDraw returns a concrete byte recorded as a draw: deterministic
+// pseudo-random values (one arbitrary but fixed choice, not a fork).
+func (in *interp) fixedDraw(name string) value {
+	p := in.path
+	if p == nil {
+		panic(in.unsupported("nondet outside a path"))
+	}
+	if p.drawSeq == nil {
+		p.drawSeq = map[string]int{}
+	}
+	seq := p.drawSeq[name]
+	p.drawSeq[name] = seq + 1
+	h := uint64(seq+1)*0x9E3779B97F4A7C15 ^ uint64(in.cfg.seed)*0xBF58476D1CE4E5B9
+	for _, c := range []byte(name) {
+		h = (h ^ uint64(c)) * 0x100000001B3
+	}
+	h ^= h >> 29
+	v := uint8(h >> 17)
+	p.draws = append(p.draws, draw{Name: fmt.Sprintf("%s#%d", name, seq), Kind: "u8", isC: true, conc: uint64(v)})
+	return v
+}
+
 func init() {
 	name := func(args []value, i int) string {
 		s, _ := args[i].(string)
@@ -175,6 +197,14 @@ func init() {
 		out := make([]value, n)
 		for i := range out {
 			out[i] = fr.in.newDraw(name(args, 0), "u8", 8, types.Uint8)
+		}
+		return done(out)
+	}
+	verifrtFns["FixedBytes"] = func(fr *frame, args []value) (value, bool) {
+		n := int(asInt64(args[1]))
+		out := make([]value, n)
+		for i := range out {
+			out[i] = fr.in.fixedDraw(name(args, 0))
 		}
 		return done(out)
 	}
